@@ -1581,7 +1581,13 @@ pub fn gen(ctx: &Ctx, emit: &mut dyn FnMut(String)) {
     }
     // ---- parse_encoded_pointer: every byte x every base set (16) through the hdr / personality /
     //      LSDA paths, address sizes 1,2,4,8 (+ odd ones), both byte orders
+    // pass 0: every byte; passes 1..3: the valid encodings again with other sizes / values / byte orders
+    let valid = valid_encodings();
+    for pass in 0..4u32 {
     for enc in 0..=255u32 {
+        if pass > 0 && !valid.contains(&(enc as u8)) {
+            continue;
+        }
         for set in 0..16u32 {
             let asz = *rng.pick(&[8u8, 8, 4, 4, 2, 1, 3, 7]);
             let e = if rng.chance(1, 3) { "be" } else { "le" };
@@ -1615,6 +1621,7 @@ pub fn gen(ctx: &Ctx, emit: &mut dyn FnMut(String)) {
             let asz = if via == "lsda" && !(1..=8).contains(&asz) { 8 } else { asz };
             emit(format!("ehpe-ptr {m} {via} {e} {enc} {asz} {},{},{} {} {off} {bytes}", o(s), o(t), o(d), o(fb)));
         }
+    }
     }
     // address sizes outside 1..8 (API misuse: overflow in `ones_sized`, mode dependent)
     for asz in [0u32, 9, 16, 31, 32, 33, 64, 255] {
